@@ -75,10 +75,10 @@ func (t *Term) IsConst() bool { return t.Op == "const" }
 
 type termKey struct {
 	Op, Name, Big string
-	Sort      Sort
-	U         uint64
-	A0, A1, A2 int32
-	N         int8
+	Sort          Sort
+	U             uint64
+	A0, A1, A2    int32
+	N             int8
 }
 
 type TermTable struct {
